@@ -41,7 +41,14 @@ PayloadsFor(t) == IF t = CT_SLIDE THEN <<"X", "Y">> ELSE IF t = CT_XML THEN <<"G
 RelTypes == <<"http://example.invalid/rel/one", "http://example.invalid/rel/two">>
 IdTable  == << <<"rId1", "rId2", "rId3", "rId4", "rId5", "rId6">>,
                <<"foo", "rId7", "bar9", "rId07", "x", "rId3">> >>
-EXTURL == "http://example.invalid/a?b=c&d=e"
+\* targets of external relationships are opaque strings, kept as spelled: escapes of reserved characters (SharePoint / redirect links),
+\* lower-case hex escapes and a fragment, back-slashes (a file link as Windows writes it), an escaped percent sign
+ExtUrls == <<"http://example.invalid/a?b=c&d=e",
+             "https://example.invalid/sites/x/Forms/AllItems.aspx?id=%2Fsites%2FR%26D%2Fdeck.pptx&parent=%2Fsites%3Fa%3D1",
+             "http://example.invalid/caf%c3%a9%20menu.pdf#page=2",
+             "file:///C:\\Users\\me\\My%20Docs\\book.xlsx",
+             "mailto:someone@example.invalid?subject=100%25%20sure">>
+EXTURL == ExtUrls[1]
 NoPkg  == [ok |-> FALSE, err |-> "none", parts |-> <<>>, rels |-> <<>>]
 NoRef  == [abs |-> FALSE, segs |-> <<>>]
 
@@ -92,7 +99,9 @@ AddRel(src, tgt, ty, f) ==
 AddExt(src) ==
   /\ stage = "rels" /\ NRels(ph) < MAXRELS + (IF AUTOROOT THEN Len(ph.mem) ELSE 0)
   /\ src \in {ROOT} \cup MemNames(ph)
-  /\ ph' = WithRel(ph, src, [id |-> NextId(ph, src), type |-> RelTypes[2], ext |-> TRUE, ref |-> NoRef, url |-> EXTURL])
+  /\ ph' = WithRel(ph, src, [id |-> NextId(ph, src), type |-> RelTypes[2], ext |-> TRUE, ref |-> NoRef,
+                           \* (which spelling: by position, so that the choice adds no branching)
+                           url |-> ExtUrls[((NRels(ph) + Len(ph.mem) + (IF src = ROOT THEN 0 ELSE 1)) % Len(ExtUrls)) + 1]])
   /\ UNCHANGED <<pk, stage, pk1, ph1>>
 RelTargets == {Cand[c] : c \in {x \in CANDS : DANGLING \/ Cand[x] \in MemNames(ph)}}
 
